@@ -26,10 +26,10 @@ package main
 //                                                              -> forEachStringMkLine, copyStringMkLine, VargroupsChecker.ignore
 //   c07.subst        two SUBST blocks with foreign variables   -> substScope.finish
 //
-// Variants that trigger the three recorded findings (docs/C07.md) are only
-// written into every fourth tree (known == true), so that three quarters of
-// the trees are compared without any known difference in them:
-//   c07.known.mastersites-overlap, c07.known.changes-tie, c07.known.bl3-trace
+// Regressions: the triggers of the three order dependences that were found with
+// this check and repaired in /repo (37e2b2f, 37d1fd9, 7d8fe86; docs/C07.md) are
+// written into every second tree:
+//   c07.regress.mastersites-overlap, c07.regress.changes-tie, c07.regress.bl3-trace
 
 import (
 	"fmt"
@@ -39,8 +39,15 @@ import (
 
 var c07Tools = []string{"awk", "sed", "grep", "tar", "gzip", "bison", "flex", "pkg-config", "msgfmt", "gmake", "perl", "install"}
 
-func c07GenTree(r *Rng, root string, index int) (*GenTree, bool) {
-	known := index%4 == 3
+// c07Regress: what a tree carries of the regression triggers.
+type c07Regress struct {
+	On     bool
+	Bl3Pkg string // a package with its own buildlink3.mk and >= 2 foreign buildlink3 includes ("" if none)
+}
+
+func c07GenTree(r *Rng, root string, index int) (*GenTree, c07Regress) {
+	known := index%2 == 1 // carries the master-site and CHANGES regression triggers
+	reg := c07Regress{On: known}
 	g := GenerateTree(r, root, GenOpts{Packages: 2 + index%2, Rich: true, Density: 25 + 10*(index%3)})
 
 	// ---- tools
@@ -80,10 +87,10 @@ func c07GenTree(r *Rng, root string, index int) (*GenTree, bool) {
 	urls := []string{"http://ftp.gnu.org/pub/gnu/hello/", "https://github.com/example/project/", "http://downloads.sourceforge.net/sourceforge/proj/",
 		"https://files.pythonhosted.org/packages/source/p/pkg/", "http://xorg.example.org/pub/individual/lib/", "http://unlisted.example.org/dist/", "-http://cpan.example.org/modules/by-module/Foo/Foo-1.0.tar.gz"}
 	if known {
-		// two variables whose URLs are prefixes of each other: known finding C07 (urlchecker.go)
+		// two variables whose URLs are prefixes of each other: regression for 37e2b2f (urlchecker.go)
 		sites = append(sites, "MASTER_SITE_MIRROR_A+=\thttp://mirror.example.org/pub/", "MASTER_SITE_MIRROR_B+=\thttp://mirror.example.org/pub/b/", "MASTER_SITE_MIRROR_C+=\thttp://mirror.example.org/")
 		urls = append(urls, "http://mirror.example.org/pub/b/dist/")
-		g.feat("c07.known.mastersites-overlap")
+		g.feat("c07.regress.mastersites-overlap")
 	}
 	g.put("mk/fetch/sites.mk", lines(sites...))
 	g.feat("c07.mastersites")
@@ -125,7 +132,7 @@ func c07GenTree(r *Rng, root string, index int) (*GenTree, bool) {
 		"\tmk/bsd.pkg.mk: freeze ended for pkgsrc-2019Q4 branch [user 2019-12-28]")
 	c20 = append(c20, "\tAdded cat/vanished5 version 1.0 [user 2020-01-03]", "\tUpdated cat/vanished6 to 1.1 [user 2020-01-03]", "\tDowngraded cat/vanished7 to 0.9 [user 2020-01-02]")
 	if known {
-		// same date and same line number in two files: IsAbove cannot order them (known finding C07, changes.go)
+		// same date and same line number in two files: IsAbove cannot order them (regression for 37d1fd9, changes.go)
 		for n := 0; len(c20) < len(c19); n++ {
 			c20 = append(c20, fmt.Sprintf("\tUpdated cat/p0 to 1.0.%d [user 2020-01-%02d]", n, 4+n))
 		}
@@ -134,7 +141,7 @@ func c07GenTree(r *Rng, root string, index int) (*GenTree, bool) {
 		}
 		c19 = append(c19, "\tAdded cat/vanished9 version 1.0 [user 2020-02-01]")
 		c20 = append(c20, "\tAdded cat/vanished8 version 1.0 [user 2020-02-01]")
-		g.feat("c07.known.changes-tie")
+		g.feat("c07.regress.changes-tie")
 	}
 	year(2018, c18)
 	year(2019, c19)
@@ -157,15 +164,14 @@ func c07GenTree(r *Rng, root string, index int) (*GenTree, bool) {
 			"SUBST_STAGE.two=\tpost-build", "SUBST_FILES.two=\tfile2", "FOREIGN_2=\ty", "SUBST_VARS.two=\tFOREIGN_1 PREFIX", "")
 		g.feat("c07.subst")
 		g.feat("c07.enum")
-		// own buildlink3.mk? then at most one foreign include unless this is a known-finding tree
+		// a package with its own buildlink3.mk that does not include what the Makefile includes:
+		// regression for 7d8fe86 (package.go, --debug trace lines)
 		_, err := os.Stat(g.Path(p + "/buildlink3.mk"))
 		ownBl3 := err == nil
 		n := 2 + r.Intn(3)
-		if ownBl3 && !known {
-			n = 1
-		}
-		if ownBl3 && known && n >= 2 {
-			g.feat("c07.known.bl3-trace")
+		if ownBl3 {
+			g.feat("c07.regress.bl3-trace")
+			reg.Bl3Pkg = p
 		}
 		for k := 0; k < n; k++ {
 			add = append(add, ".include \"../../devel/"+libs[(pi+k+index)%len(libs)]+"/buildlink3.mk\"")
@@ -199,5 +205,5 @@ func c07GenTree(r *Rng, root string, index int) (*GenTree, bool) {
 		g.feat("c07.plist")
 	}
 	g.put("Makefile", lines(cvsID, "", "SUBDIR+=\tcat", "SUBDIR+=\tdevel", ""))
-	return g, known
+	return g, reg
 }
